@@ -8,6 +8,20 @@ from .rules import diag
 from .rules import crev
 
 
+def _run(rep, rule_fn, *args, **kwargs):
+    """One rule group.  A construct it cannot read (AnalysisError) is recorded and the other groups still run: a violation
+    found by another rule stands on its own evidence; without any violation the run ends as ANALYSIS-ERROR (exit 2)."""
+    from .front import AnalysisError
+
+    only = rep.only
+    try:
+        return rule_fn(rep, *args, **kwargs)
+    except AnalysisError as e:
+        rep.analysis_errors.append(str(e))
+        rep.only = only
+        return None
+
+
 def _class_of(table, key):
     """Class dispatched for an operator row; None when the DISPATCH obligation for that row was refuted (the
     operator rules then have nothing sound to run on, and the dispatch violation is the report)."""
@@ -22,10 +36,10 @@ def C01(rep, prog, tier):
     table = wrappers.dispatch(rep, ex)
     cls = _class_of(table, ("p-entailment", None))
     if cls:
-        pent.check(rep, ex, cls, strict=True, extended=False, keys=True)
-    wrappers.shortcut_guard(rep, ex)
-    wrappers.shortcut_dominance(rep, ex)
-    part.check_all(rep, ex, only=("inference.consistency_sat.consistency",))
+        _run(rep, pent.check, ex, cls, strict=True, extended=False, keys=True)
+    _run(rep, wrappers.shortcut_guard, ex)
+    _run(rep, wrappers.shortcut_dominance, ex)
+    _run(rep, part.check_all, ex, only=("inference.consistency_sat.consistency",))
     _answers_reach_the_caller(rep, ex)
 
 
@@ -33,20 +47,20 @@ def _answers_reach_the_caller(rep, ex):
     """An operator's answer is observed through single_inference / multi_inference and the manager's report: they must
     hand every query its own answer, asked in the mode of the state (ROWS.key, ROWS.columns, PAR.key, TIMEOUT.per-query:
     the operator is called with the query, the state's mode and this query's deadline in their own roles)."""
-    wrappers.rows(rep, ex, which=("single", "worker", "multi", "manager"), rules=("ROWS.key", "ROWS.columns", "TIMEOUT.row", "TIMEOUT.per-query", "PAR.key"))
-    wrappers.refuse_manager(rep, ex, rules=("ROWS.key",))
+    _run(rep, wrappers.rows, ex, which=("single", "worker", "multi", "manager"), rules=("ROWS.key", "ROWS.columns", "TIMEOUT.row", "TIMEOUT.per-query", "PAR.key"))
+    _run(rep, wrappers.refuse_manager, ex, rules=("ROWS.key",))
 
 
 def _encoding_and_enumeration(rep, ex):
     """The summaries the MaxSAT-based operators are analysed through (CNF of a conditional's formulas, family of
     inclusion-minimal correction sets) are discharged in the same check."""
-    cnf.roles(rep, ex)
-    cnf.literals(rep, ex)
-    cnf.constants_handling(rep, ex)
-    enum.violated(rep, ex)
-    enum.block(rep, ex)
-    enum.minimal(rep, ex)
-    enum.loop(rep, ex)
+    _run(rep, cnf.roles, ex)
+    _run(rep, cnf.literals, ex)
+    _run(rep, cnf.constants_handling, ex)
+    _run(rep, enum.violated, ex)
+    _run(rep, enum.block, ex)
+    _run(rep, enum.minimal, ex)
+    _run(rep, enum.loop, ex)
 
 
 def C02(rep, prog, tier):
@@ -56,12 +70,12 @@ def C02(rep, prog, tier):
     table = wrappers.dispatch(rep, ex)
     cls = _class_of(table, ("system-z", None))
     if cls:
-        sysz.check_partition_flow_plain(rep, ex, cls, "cond")
-        sysz.rec(rep, ex, cls)
-        sysz.entry_z(rep, ex, cls, strict=True, extended=False)
-    wrappers.shortcut_guard(rep, ex)
-    wrappers.shortcut_dominance(rep, ex)
-    part.check_all(rep, ex, only=("inference.consistency_sat.consistency",))
+        _run(rep, sysz.check_partition_flow_plain, ex, cls, "cond")
+        _run(rep, sysz.rec, ex, cls)
+        _run(rep, sysz.entry_z, ex, cls, strict=True, extended=False)
+    _run(rep, wrappers.shortcut_guard, ex)
+    _run(rep, wrappers.shortcut_dominance, ex)
+    _run(rep, part.check_all, ex, only=("inference.consistency_sat.consistency",))
     _answers_reach_the_caller(rep, ex)
 
 
@@ -74,14 +88,15 @@ def C03(rep, prog, tier):
         cls = _class_of(table, key)
         if cls:
             be = mcsops.Backend(name, cls, lex=False)
-            mcsops.preprocess_flow(rep, ex, be, "W")
-            mcsops.w_rec(rep, ex, be)
-            mcsops.w_entry(rep, ex, be, strict=True, extended=False)
+            _run(rep, mcsops.preprocess_flow, ex, be, "W")
+            _run(rep, mcsops.w_rec, ex, be)
+            _run(rep, mcsops.w_entry, ex, be, strict=True, extended=False, keys=True)
             if name == "z3":
-                enum.z3mcs(rep, ex, cls)
-    wrappers.shortcut_guard(rep, ex)
-    wrappers.shortcut_dominance(rep, ex)
-    part.check_all(rep, ex)
+                _run(rep, enum.z3mcs, ex, cls)
+    _run(rep, mcsops.object_identity, ex)
+    _run(rep, wrappers.shortcut_guard, ex)
+    _run(rep, wrappers.shortcut_dominance, ex)
+    _run(rep, part.check_all, ex)
     _encoding_and_enumeration(rep, ex)
     _answers_reach_the_caller(rep, ex)
 
@@ -95,16 +110,17 @@ def C04(rep, prog, tier):
         cls = _class_of(table, key)
         if cls:
             be = mcsops.Backend(name, cls, lex=True)
-            mcsops.preprocess_flow(rep, ex, be, "LEX")
-            mcsops.lex_rec(rep, ex, be)
-            mcsops.lex_ties(rep, ex, be)
-            mcsops.w_entry(rep, ex, be, strict=True, extended=False, prefix="LEX", n_objects=2)
-            mcsops.lex_strict_shortcuts(rep, ex, be)
+            _run(rep, mcsops.preprocess_flow, ex, be, "LEX")
+            _run(rep, mcsops.lex_rec, ex, be)
+            _run(rep, mcsops.lex_ties, ex, be)
+            _run(rep, mcsops.w_entry, ex, be, strict=True, extended=False, prefix="LEX", n_objects=2, keys=True)
+            _run(rep, mcsops.lex_strict_shortcuts, ex, be)
             if name == "z3":
-                enum.z3mcs(rep, ex, cls)
-    wrappers.shortcut_guard(rep, ex)
-    wrappers.shortcut_dominance(rep, ex)
-    part.check_all(rep, ex)
+                _run(rep, enum.z3mcs, ex, cls)
+    _run(rep, mcsops.object_identity, ex)
+    _run(rep, wrappers.shortcut_guard, ex)
+    _run(rep, wrappers.shortcut_dominance, ex)
+    _run(rep, part.check_all, ex)
     _encoding_and_enumeration(rep, ex)
     _answers_reach_the_caller(rep, ex)
 
@@ -118,31 +134,31 @@ def C07(rep, prog, tier):
     table = wrappers.dispatch(rep, ex)
     cls = _class_of(table, ("p-entailment", None))
     if cls:
-        pent.check(rep, ex, cls, strict=False, extended=True)
+        _run(rep, pent.check, ex, cls, strict=False, extended=True)
     cls = _class_of(table, ("system-z", None))
     if cls:
-        sysz.check_partition_flow_plain(rep, ex, cls, "cond")
-        sysz.rec(rep, ex, cls)
-        sysz.entry_z(rep, ex, cls, strict=False, extended=True)
+        _run(rep, sysz.check_partition_flow_plain, ex, cls, "cond")
+        _run(rep, sysz.rec, ex, cls)
+        _run(rep, sysz.entry_z, ex, cls, strict=False, extended=True)
     for key, name, lex in ((("system-w", False), "rc2", False), (("system-w", True), "z3", False),
                            (("lex_inf", False), "rc2", True), (("lex_inf", True), "z3", True)):
         cls = _class_of(table, key)
         if cls:
             be = mcsops.Backend(name, cls, lex=lex)
             # the infinity layer the extended branch works with is the last layer of the partition preprocessing stored
-            mcsops.preprocess_flow(rep, ex, be, "LEX" if lex else "W")
-            mcsops.w_entry(rep, ex, be, strict=False, extended=True, prefix="LEX" if lex else "W", n_objects=2 if lex else 1)
+            _run(rep, mcsops.preprocess_flow, ex, be, "LEX" if lex else "W")
+            _run(rep, mcsops.w_entry, ex, be, strict=False, extended=True, prefix="LEX" if lex else "W", n_objects=2 if lex else 1)
             # below the infinity layer the extended answer is the recursion's: its obligations are part of "exact"
             if lex:
-                mcsops.lex_rec(rep, ex, be)
-                mcsops.lex_ties(rep, ex, be)
+                _run(rep, mcsops.lex_rec, ex, be)
+                _run(rep, mcsops.lex_ties, ex, be)
             else:
-                mcsops.w_rec(rep, ex, be)
+                _run(rep, mcsops.w_rec, ex, be)
             if name == "z3":
-                enum.z3mcs(rep, ex, cls)
-    part.check_all(rep, ex)
+                _run(rep, enum.z3mcs, ex, cls)
+    _run(rep, part.check_all, ex)
     _encoding_and_enumeration(rep, ex)
-    wrappers.manager_init(rep, ex, roles=("belief_base", "inference_system", "weakly"))
+    _run(rep, wrappers.manager_init, ex, roles=("belief_base", "inference_system", "weakly"))
 
 
 def _mcs_operators(rep, ex, table, strict=True, extended=True, rec=True):
@@ -153,17 +169,17 @@ def _mcs_operators(rep, ex, table, strict=True, extended=True, rec=True):
             continue
         be = mcsops.Backend(name, cls, lex=lex)
         pre = "LEX" if lex else "W"
-        mcsops.preprocess_flow(rep, ex, be, pre)
+        _run(rep, mcsops.preprocess_flow, ex, be, pre)
         if rec:
             if lex:
-                mcsops.lex_rec(rep, ex, be)
-                mcsops.lex_ties(rep, ex, be)
-                mcsops.lex_strict_shortcuts(rep, ex, be)
+                _run(rep, mcsops.lex_rec, ex, be)
+                _run(rep, mcsops.lex_ties, ex, be)
+                _run(rep, mcsops.lex_strict_shortcuts, ex, be)
             else:
-                mcsops.w_rec(rep, ex, be)
-        mcsops.w_entry(rep, ex, be, strict=strict, extended=extended, prefix=pre, n_objects=2 if lex else 1)
+                _run(rep, mcsops.w_rec, ex, be)
+        _run(rep, mcsops.w_entry, ex, be, strict=strict, extended=extended, prefix=pre, n_objects=2 if lex else 1)
         if name == "z3":
-            enum.z3mcs(rep, ex, cls)
+            _run(rep, enum.z3mcs, ex, cls)
 
 
 def C11(rep, prog, tier):
@@ -173,14 +189,18 @@ def C11(rep, prog, tier):
                        "enumeration blocking and termination) and must discharge the same obligation table slot by slot; Z3.translate")
     ex = Explorer(prog, rep)
     table = wrappers.dispatch(rep, ex)
-    wrappers.backend_dispatch(rep, ex)
-    wrappers.manager_init(rep, ex, roles=("belief_base", "inference_system", "smt_solver", "pmaxsat_solver"))
-    mcsops.object_identity(rep, ex)
+    _run(rep, wrappers.backend_dispatch, ex)
+    _run(rep, wrappers.manager_init, ex, roles=("belief_base", "inference_system", "smt_solver", "pmaxsat_solver"))
+    _run(rep, mcsops.object_identity, ex)
     _mcs_operators(rep, ex, table)
-    enum.loop(rep, ex)
-    enum.violated(rep, ex)
-    enum.block(rep, ex)
-    enum.minimal(rep, ex)
+    _run(rep, enum.loop, ex)
+    _run(rep, enum.violated, ex)
+    _run(rep, enum.block, ex)
+    _run(rep, enum.minimal, ex)
+    # only the rc2 operators read the integer CNFs: a CNF that is not faithful makes the two back-ends disagree
+    _run(rep, cnf.roles, ex)
+    _run(rep, cnf.literals, ex)
+    _run(rep, cnf.constants_handling, ex)
 
 
 def C09(rep, prog, tier):
@@ -198,34 +218,34 @@ def C09(rep, prog, tier):
             "KEY.no-reserved", "C01.negation", "C.selffulfilling", "C.relations"}
     rep.only = keep
     try:
-        wrappers.shortcut_guard(rep, ex)
-        wrappers.shortcut_dominance(rep, ex)
+        _run(rep, wrappers.shortcut_guard, ex)
+        _run(rep, wrappers.shortcut_dominance, ex)
         cls = _class_of(table, ("p-entailment", None))
         if cls:
-            pent.check(rep, ex, cls, strict=True, extended=False, keys=True, floors=False)
+            _run(rep, pent.check, ex, cls, strict=True, extended=False, keys=True, floors=False)
         cls = _class_of(table, ("c-inference", None))
         if cls:
-            cinf.answer(rep, ex, cls)
+            _run(rep, cinf.answer, ex, cls)
         cls = _class_of(table, ("system-z", None))
         if cls:
-            sysz.rec(rep, ex, cls)
-            sysz.entry_z(rep, ex, cls, strict=True, extended=False)
+            _run(rep, sysz.rec, ex, cls)
+            _run(rep, sysz.entry_z, ex, cls, strict=True, extended=False)
         for key, name, lex in ((("system-w", False), "rc2", False), (("system-w", True), "z3", False),
                                (("lex_inf", False), "rc2", True), (("lex_inf", True), "z3", True)):
             cls = _class_of(table, key)
             if cls:
                 be = mcsops.Backend(name, cls, lex=lex)
                 if lex:
-                    mcsops.lex_rec(rep, ex, be)
-                    mcsops.lex_ties(rep, ex, be)
-                    mcsops.lex_strict_shortcuts(rep, ex, be)
-                    mcsops.w_entry(rep, ex, be, strict=True, extended=False, prefix="LEX", n_objects=2)
+                    _run(rep, mcsops.lex_rec, ex, be)
+                    _run(rep, mcsops.lex_ties, ex, be)
+                    _run(rep, mcsops.lex_strict_shortcuts, ex, be)
+                    _run(rep, mcsops.w_entry, ex, be, strict=True, extended=False, prefix="LEX", n_objects=2)
                 else:
-                    mcsops.w_rec(rep, ex, be)
-                    mcsops.w_entry(rep, ex, be, strict=True, extended=False)
-        cnf.roles(rep, ex)
-        cnf.literals(rep, ex)
-        cnf.constants_handling(rep, ex)
+                    _run(rep, mcsops.w_rec, ex, be)
+                    _run(rep, mcsops.w_entry, ex, be, strict=True, extended=False)
+        _run(rep, cnf.roles, ex)
+        _run(rep, cnf.literals, ex)
+        _run(rep, cnf.constants_handling, ex)
     finally:
         rep.only = None
 
@@ -243,38 +263,44 @@ def C12(rep, prog, tier):
             "LEX.balance", "W.balance", "LEX.tie-constraints", "W.decision",
             # necessary for invariance under reordering / equivalent rewriting: an early exit that looks at all conditionals,
             # constants evaluated instead of named
-            "C.selffulfilling", "C.relations", "CNF.constants"}
+            "C.selffulfilling", "C.relations", "CNF.constants",
+            # a query that cannot be falsified is answered True however it is written: the short cut is a satisfiability test
+            "SHORTCUT.guard",
+            # every conditional counts whatever its key
+            "C.minima-roles"}
     rep.only = keep
     try:
+        _run(rep, wrappers.shortcut_guard, ex)
         cls = _class_of(table, ("p-entailment", None))
         if cls:
-            pent.check(rep, ex, cls, strict=True, extended=True, keys=True, floors=False)
-            wrappers.noninterference(rep, ex, f"{cls}._inference", ex.cache.get((f"{cls}._inference", "pent"), []))
+            _run(rep, pent.check, ex, cls, strict=True, extended=True, keys=True, floors=False)
+            _run(rep, wrappers.noninterference, ex, f"{cls}._inference", ex.cache.get((f"{cls}._inference", "pent"), []))
         cls = _class_of(table, ("system-z", None))
         if cls:
             site, paths = sysz.inference_entry(rep, ex, cls)
-            wrappers.noninterference(rep, ex, site, paths)
+            _run(rep, wrappers.noninterference, ex, site, paths)
         for key, name, lex in ((("system-w", False), "rc2", False), (("system-w", True), "z3", False),
                                (("lex_inf", False), "rc2", True), (("lex_inf", True), "z3", True)):
             cls = _class_of(table, key)
             if cls:
                 be = mcsops.Backend(name, cls, lex=lex)
                 site, paths = mcsops.w_entry(rep, ex, be, strict=True, extended=True, prefix="LEX" if lex else "W", keys=True, n_objects=2 if lex else 1)
-                wrappers.noninterference(rep, ex, site, paths)
+                _run(rep, wrappers.noninterference, ex, site, paths)
                 if lex:
-                    mcsops.lex_rec(rep, ex, be)
-                    mcsops.lex_ties(rep, ex, be)
+                    _run(rep, mcsops.lex_rec, ex, be)
+                    _run(rep, mcsops.lex_ties, ex, be)
                 else:
-                    mcsops.w_rec(rep, ex, be)
+                    _run(rep, mcsops.w_rec, ex, be)
         cls = _class_of(table, ("c-inference", None))
         if cls:
-            cinf.key_discipline(rep, ex, cls)
-            cinf.encoding_relation(rep, ex, cls)
-            cinf.query_names(rep, ex, cls)
-            cinf.answer(rep, ex, cls)
-            wrappers.noninterference(rep, ex, f"inference/c_inference.py:{cls.rsplit('.', 1)[1]}._inference", ex.cache.get((f"{cls}._inference", "cinf"), []))
-        cnf.constants_handling(rep, ex)
-        mcsops.object_identity(rep, ex)
+            _run(rep, cinf.key_discipline, ex, cls)
+            _run(rep, cinf.encoding_relation, ex, cls)
+            _run(rep, cinf.query_names, ex, cls)
+            _run(rep, cinf.query_encoding, ex, cls)
+            _run(rep, cinf.answer, ex, cls)
+            _run(rep, wrappers.noninterference, ex, f"inference/c_inference.py:{cls.rsplit('.', 1)[1]}._inference", ex.cache.get((f"{cls}._inference", "cinf"), []))
+        _run(rep, cnf.constants_handling, ex)
+        _run(rep, mcsops.object_identity, ex)
     finally:
         rep.only = None
 
@@ -283,7 +309,7 @@ def _operator_inference_paths(rep, ex, table):
     """(site, abstract paths) of `_inference` and of the recursive cores of every registered operator."""
     cls = _class_of(table, ("p-entailment", None))
     if cls:
-        pent.check(rep, ex, cls, strict=True, extended=True, floors=False)
+        _run(rep, pent.check, ex, cls, strict=True, extended=True, floors=False)
         yield f"inference/p_entailment.py:{cls.rsplit('.', 1)[1]}._inference", ex.cache.get((f"{cls}._inference", "pent"), [])
     cls = _class_of(table, ("system-z", None))
     if cls:
@@ -300,7 +326,7 @@ def _operator_inference_paths(rep, ex, table):
             yield rsite, ex.run(f"{cls}._rec_inference", be.rec_setup(), summaries=be.summaries(), key=f"{'lexrec' if lex else 'wrec'}-{name}", hooks=be.hooks())
     cls = _class_of(table, ("c-inference", None))
     if cls:
-        cinf.answer(rep, ex, cls)
+        _run(rep, cinf.answer, ex, cls)
         yield f"inference/c_inference.py:{cls.rsplit('.', 1)[1]}._inference", ex.cache.get((f"{cls}._inference", "cinf"), [])
 
 
@@ -310,21 +336,21 @@ def C13(rep, prog, tier):
                        "QUERYSLOT.def-before-use, CACHE.readonly, PREPROC.once. Scheduling and fork semantics are not decided")
     ex = Explorer(prog, rep)
     table = wrappers.dispatch(rep, ex, report=False)
-    wrappers.state_lifetime(rep, ex)
-    wrappers.init_preserves_state(rep, ex)
-    wrappers.rows(rep, ex)
-    wrappers.refuse_manager(rep, ex, rules=("ROWS.key",))
+    _run(rep, wrappers.state_lifetime, ex)
+    _run(rep, wrappers.init_preserves_state, ex)
+    _run(rep, wrappers.rows, ex)
+    _run(rep, wrappers.refuse_manager, ex, rules=("ROWS.key",))
     # what a query is translated to depends on that query only (no memo across queries keyed by a presentation)
-    rep.only = {"CNF.roles"}
+    rep.only = {"CNF.roles", "CNF.pool"}  # (and the id pool is never rewound between queries)
     try:
-        cnf.roles(rep, ex)
+        _run(rep, cnf.roles, ex)
     finally:
         rep.only = None
-    wrappers.refuse(rep, ex, rules=("PREPROC.once",))
+    _run(rep, wrappers.refuse, ex, rules=("PREPROC.once",))
     rep.only = {"STATE.solver-per-query"}
     try:
         for site, paths in _operator_inference_paths(rep, ex, table):
-            wrappers.solver_per_query(rep, site, paths)
+            _run(rep, wrappers.solver_per_query, site, paths)
     finally:
         rep.only = None
     keep = {"CACHE.readonly", "QUERYSLOT.def-before-use"}
@@ -332,31 +358,31 @@ def C13(rep, prog, tier):
     try:
         cls = _class_of(table, ("p-entailment", None))
         if cls:
-            pent.check(rep, ex, cls, strict=True, extended=True, floors=False)
-            wrappers.cache_readonly(rep, ex, f"inference/p_entailment.py:{cls.rsplit('.', 1)[1]}._inference", ex.cache.get((f"{cls}._inference", "pent"), []))
+            _run(rep, pent.check, ex, cls, strict=True, extended=True, floors=False)
+            _run(rep, wrappers.cache_readonly, ex, f"inference/p_entailment.py:{cls.rsplit('.', 1)[1]}._inference", ex.cache.get((f"{cls}._inference", "pent"), []))
         cls = _class_of(table, ("system-z", None))
         if cls:
             site, paths = sysz.inference_entry(rep, ex, cls)
-            wrappers.cache_readonly(rep, ex, site, paths)
+            _run(rep, wrappers.cache_readonly, ex, site, paths)
         for key, name, lex in ((("system-w", False), "rc2", False), (("system-w", True), "z3", False),
                                (("lex_inf", False), "rc2", True), (("lex_inf", True), "z3", True)):
             cls = _class_of(table, key)
             if cls:
                 be = mcsops.Backend(name, cls, lex=lex)
                 site, paths = mcsops.w_entry(rep, ex, be, strict=True, extended=True, prefix="LEX" if lex else "W", n_objects=2 if lex else 1)
-                wrappers.cache_readonly(rep, ex, site, paths)
+                _run(rep, wrappers.cache_readonly, ex, site, paths)
                 be.discover_query_slots(ex)
                 rsite = f"{site.rsplit('.', 1)[0]}._rec_inference"
                 rpaths = ex.run(f"{cls}._rec_inference", be.rec_setup(), summaries=be.summaries(), key=f"{'lexrec' if lex else 'wrec'}-{name}", hooks=be.hooks())
-                wrappers.cache_readonly(rep, ex, rsite, rpaths)
+                _run(rep, wrappers.cache_readonly, ex, rsite, rpaths)
         cls = _class_of(table, ("c-inference", None))
         if cls:
-            cinf.answer(rep, ex, cls)
-            wrappers.cache_readonly(rep, ex, f"inference/c_inference.py:{cls.rsplit('.', 1)[1]}._inference", ex.cache.get((f"{cls}._inference", "cinf"), []))
-            cinf.query_encoding(rep, ex, cls)
-            wrappers.cache_readonly(rep, ex, f"inference/c_inference.py:{cls.rsplit('.', 1)[1]}.compile_and_encode_query", ex.cache.get((f"{cls}.compile_and_encode_query", "caeq"), []))
+            _run(rep, cinf.answer, ex, cls)
+            _run(rep, wrappers.cache_readonly, ex, f"inference/c_inference.py:{cls.rsplit('.', 1)[1]}._inference", ex.cache.get((f"{cls}._inference", "cinf"), []))
+            _run(rep, cinf.query_encoding, ex, cls)
+            _run(rep, wrappers.cache_readonly, ex, f"inference/c_inference.py:{cls.rsplit('.', 1)[1]}.compile_and_encode_query", ex.cache.get((f"{cls}.compile_and_encode_query", "caeq"), []))
         rep.only = {"CACHE.readonly", "MCS.block"}
-        enum.block(rep, ex)
+        _run(rep, enum.block, ex)
     finally:
         rep.only = None
 
@@ -371,18 +397,18 @@ def C14(rep, prog, tier):
     for key in (("system-w", True), ("lex_inf", True)):
         cls = _class_of(table, key)
         if cls:
-            enum.z3mcs(rep, ex, cls)
-    wrappers.timeout_flow(rep, ex)
-    wrappers.rows(rep, ex, which=("single", "worker", "multi"), rules=("TIMEOUT.row", "TIMEOUT.per-query"))
-    wrappers.refuse(rep, ex, rules=("TIMEOUT.row", "TIMEOUT.flow", "PREPROC.once"))
-    wrappers.refuse_manager(rep, ex, rules=("TIMEOUT.row",))
-    wrappers.preprocessing_timeout_rows(rep, ex)
-    wrappers.rows(rep, ex, which=("manager",), rules=("ROWS.columns",))
-    enum.loop(rep, ex, rules=("TIMEOUT.guarded-raise",))
+            _run(rep, enum.z3mcs, ex, cls)
+    _run(rep, wrappers.timeout_flow, ex)
+    _run(rep, wrappers.rows, ex, which=("single", "worker", "multi"), rules=("TIMEOUT.row", "TIMEOUT.per-query"))
+    _run(rep, wrappers.refuse, ex, rules=("TIMEOUT.row", "TIMEOUT.flow", "PREPROC.once"))
+    _run(rep, wrappers.refuse_manager, ex, rules=("TIMEOUT.row",))
+    _run(rep, wrappers.preprocessing_timeout_rows, ex)
+    _run(rep, wrappers.rows, ex, which=("manager",), rules=("ROWS.columns",))
+    _run(rep, enum.loop, ex, rules=("TIMEOUT.guarded-raise",))
     rep.only = {"STATE.solver-per-query"}
     try:
         for site, paths in _operator_inference_paths(rep, ex, table):
-            wrappers.solver_per_query(rep, site, paths)
+            _run(rep, wrappers.solver_per_query, site, paths)
     finally:
         rep.only = None
     # the operators that look at the deadline themselves (z3 back-ends): having seen it expired they may go on without a
@@ -393,7 +419,7 @@ def C14(rep, prog, tier):
             cls = _class_of(table, key)
             if cls:
                 be = mcsops.Backend("z3", cls, lex=lex)
-                mcsops.w_entry(rep, ex, be, strict=True, extended=True, prefix="LEX" if lex else "W", n_objects=2 if lex else 1)
+                _run(rep, mcsops.w_entry, ex, be, strict=True, extended=True, prefix="LEX" if lex else "W", n_objects=2 if lex else 1)
     finally:
         rep.only = None
 
@@ -403,14 +429,14 @@ def C15(rep, prog, tier):
                        "enumeration (remove_supersets decided on three abstract sets with ⊆ uninterpreted); decides the shape of the "
                        "encoding and of the enumeration, not z3's tactic or RC2")
     ex = Explorer(prog, rep)
-    cnf.roles(rep, ex)
-    cnf.literals(rep, ex)
-    cnf.constants_handling(rep, ex)
-    cnf.pool(rep, ex)
-    enum.violated(rep, ex)
-    enum.block(rep, ex)
-    enum.minimal(rep, ex)
-    enum.loop(rep, ex)
+    _run(rep, cnf.roles, ex)
+    _run(rep, cnf.literals, ex)
+    _run(rep, cnf.constants_handling, ex)
+    _run(rep, cnf.pool, ex)
+    _run(rep, enum.violated, ex)
+    _run(rep, enum.block, ex)
+    _run(rep, enum.minimal, ex)
+    _run(rep, enum.loop, ex)
 
 
 def C05(rep, prog, tier):
@@ -421,18 +447,18 @@ def C05(rep, prog, tier):
     table = wrappers.dispatch(rep, ex)
     cls = _class_of(table, ("c-inference", None))
     if cls:
-        cinf.minima_roles(rep, ex, cls)
-        cinf.query_encoding(rep, ex, cls)
-        cinf.minima_encoding(rep, ex)
-        cinf.summation(rep, ex)
-        cinf.encoding_relation(rep, ex, cls)
-        cinf.answer(rep, ex, cls)
-        cinf.key_discipline(rep, ex, cls)
-        cinf.query_names(rep, ex, cls)
-        cinf.preprocess_flow(rep, ex, cls)
-        wrappers.init_preserves_state(rep, ex, only_cls=cls)
-    wrappers.shortcut_guard(rep, ex)
-    wrappers.shortcut_dominance(rep, ex)
+        _run(rep, cinf.minima_roles, ex, cls)
+        _run(rep, cinf.query_encoding, ex, cls)
+        _run(rep, cinf.minima_encoding, ex)
+        _run(rep, cinf.summation, ex)
+        _run(rep, cinf.encoding_relation, ex, cls)
+        _run(rep, cinf.answer, ex, cls)
+        _run(rep, cinf.key_discipline, ex, cls)
+        _run(rep, cinf.query_names, ex, cls)
+        _run(rep, cinf.preprocess_flow, ex, cls)
+        _run(rep, wrappers.init_preserves_state, ex, only_cls=cls)
+    _run(rep, wrappers.shortcut_guard, ex)
+    _run(rep, wrappers.shortcut_dominance, ex)
     _encoding_and_enumeration(rep, ex)
     _answers_reach_the_caller(rep, ex)
 
@@ -443,20 +469,20 @@ def C16(rep, prog, tier):
                        "ZRANK.refuse; PART.* of `consistency`. Equality with the operator's answers is not decided (two conforming "
                        "implementations of one definition)")
     ex = Explorer(prog, rep)
-    preocf.world_literals(rep, ex)
+    _run(rep, preocf.world_literals, ex)
     for cls in (preocf.ZP, preocf.PO):
-        preocf.zrank_recursion(rep, ex, cls)
-    preocf.rank_cache(rep, ex, preocf.ZP, "z_part2ocf")
-    preocf.zrank_init(rep, ex)
-    preocf.fact_builder_sibling(rep, ex)
+        _run(rep, preocf.zrank_recursion, ex, cls)
+    _run(rep, preocf.rank_cache, ex, preocf.ZP, "z_part2ocf")
+    _run(rep, preocf.zrank_init, ex)
+    _run(rep, preocf.fact_builder_sibling, ex)
     # acceptance of a conditional by the ranking object goes through formula ranks
-    preocf.rank_min(rep, ex)
-    preocf.accept_decision(rep, ex)
-    part.check_all(rep, ex, only=("inference.consistency_sat.consistency",))
-    preocf.factory_forwarding(rep, ex, which=("init_system_z",))
+    _run(rep, preocf.rank_min, ex)
+    _run(rep, preocf.accept_decision, ex)
+    _run(rep, part.check_all, ex, only=("inference.consistency_sat.consistency",))
+    _run(rep, preocf.factory_forwarding, ex, which=("init_system_z",))
     # the refusal carries the diagnostics: their flags are part of what the caller observes
-    diag.flags(rep, ex)
-    diag.facts_sat(rep, ex)
+    _run(rep, diag.flags, ex)
+    _run(rep, diag.facts_sat, ex)
 
 
 def C17(rep, prog, tier):
@@ -466,34 +492,36 @@ def C17(rep, prog, tier):
                        "the relation to c-inference are not decided")
     ex = Explorer(prog, rep)
     for cls in (preocf.CR, preocf.PO):
-        preocf.crep_rank(rep, ex, cls)
-    preocf.rank_cache(rep, ex, preocf.CR, "c_vec2ocf", rule="CREP.cache")
-    preocf.crep_init(rep, ex)
-    crev.solve(rep, ex)
-    crev.front_enumeration(rep, ex)
-    preocf.rank_min(rep, ex)
-    preocf.accept_decision(rep, ex)
-    cinf.encoding_relation(rep, ex)
-    cinf.key_discipline(rep, ex)
-    cinf.query_names(rep, ex)
-    cinf.minima_encoding(rep, ex)
-    cinf.summation(rep, ex)
-    preocf.world_literals(rep, ex)
-    preocf.factory_forwarding(rep, ex, which=("init_random_min_c_rep",))
-    crev.front_wiring(rep, ex)
+        _run(rep, preocf.crep_rank, ex, cls)
+    _run(rep, preocf.rank_cache, ex, preocf.CR, "c_vec2ocf", rule="CREP.cache")
+    _run(rep, preocf.crep_init, ex)
+    _run(rep, crev.solve, ex)
+    _run(rep, crev.front_enumeration, ex)
+    _run(rep, preocf.rank_min, ex)
+    _run(rep, preocf.accept_decision, ex)
+    _run(rep, cinf.encoding_relation, ex)
+    _run(rep, cinf.key_discipline, ex)
+    _run(rep, cinf.query_names, ex)
+    _run(rep, cinf.minima_encoding, ex)
+    _run(rep, cinf.summation, ex)
+    _run(rep, preocf.world_literals, ex)
+    _run(rep, preocf.factory_forwarding, ex, which=("init_random_min_c_rep",))
+    _run(rep, crev.front_wiring, ex)
+    # the constraint system the impacts solve is built from the minimal correction sets of the CNFs: both are part of it
+    _encoding_and_enumeration(rep, ex)
 
 
 def C18(rep, prog, tier):
     rep.explanation = ("C18: RANK.min (accumulator update table, scope of the satisfaction test), ACCEPT.decision, MARG.bits, "
                        "COND.filter, TPO.order, WORLD.literals on the ranking-function operations")
     ex = Explorer(prog, rep)
-    preocf.world_literals(rep, ex)
-    preocf.rank_min(rep, ex)
-    preocf.accept_decision(rep, ex)
-    preocf.marg_bits(rep, ex)
-    preocf.cond_filter(rep, ex)
-    preocf.tpo_order(rep, ex)
-    preocf.factory_forwarding(rep, ex, which=("init_custom",))
+    _run(rep, preocf.world_literals, ex)
+    _run(rep, preocf.rank_min, ex)
+    _run(rep, preocf.accept_decision, ex)
+    _run(rep, preocf.marg_bits, ex)
+    _run(rep, preocf.cond_filter, ex)
+    _run(rep, preocf.tpo_order, ex)
+    _run(rep, preocf.factory_forwarding, ex, which=("init_custom",))
 
 
 def C20(rep, prog, tier):
@@ -502,12 +530,12 @@ def C20(rep, prog, tier):
                        "(decision tables of saver and loader over suffix classes x fmt). Pickling across interpreters and equality of "
                        "continued lazy computation are not decided")
     ex = Explorer(prog, rep)
-    preocf.save_restore(rep, ex)
-    preocf.pickled_state(rep, ex)
-    preocf.impacts_keys(rep, ex)
-    preocf.impacts_accept(rep, ex)
-    preocf.impacts_factories(rep, ex)
-    preocf.format_agree(rep, ex)
+    _run(rep, preocf.save_restore, ex)
+    _run(rep, preocf.pickled_state, ex)
+    _run(rep, preocf.impacts_keys, ex)
+    _run(rep, preocf.impacts_accept, ex)
+    _run(rep, preocf.impacts_factories, ex)
+    _run(rep, preocf.format_agree, ex)
 
 
 def C10(rep, prog, tier):
@@ -516,25 +544,25 @@ def C10(rep, prog, tier):
                        "(must-precede), REJECT.eof. The ANTLR runtime and the file-or-string heuristic are not decided")
     ex = Explorer(prog, rep)
     g, lit = parser_rules.grammar_rules(rep, ex)
-    parser_rules.generated_parser(rep, ex, lit)
-    parser_rules.lexer_atn(rep, ex, g)
-    parser_rules.visitor_meaning(rep, ex)
-    parser_rules.reject(rep, ex, g)
+    _run(rep, parser_rules.generated_parser, ex, lit)
+    _run(rep, parser_rules.lexer_atn, ex, g)
+    _run(rep, parser_rules.visitor_meaning, ex)
+    _run(rep, parser_rules.reject, ex, g)
 
 
 def C06(rep, prog, tier):
     rep.explanation = ("C06: tolerance-partition obligations PART.* on consistency/consistency_indices (scope of every "
                        "satisfiability test, split, balance, terminal decisions, advance, siblings); diagnostics flags; refusal")
     ex = Explorer(prog, rep)
-    part.check_all(rep, ex)
-    part.check_siblings(rep, ex)
-    wrappers.refuse(rep, ex)
-    wrappers.refuse_manager(rep, ex, rules=("REFUSE", "PREPROC.once", "TIMEOUT.row", "TIMEOUT.flow"))
-    wrappers.init_preserves_state(rep, ex)
-    wrappers.shortcut_dominance(rep, ex)
-    diag.flags(rep, ex)
-    diag.facts_sat(rep, ex)
-    preocf.fact_builder_sibling(rep, ex)
+    _run(rep, part.check_all, ex)
+    _run(rep, part.check_siblings, ex)
+    _run(rep, wrappers.refuse, ex)
+    _run(rep, wrappers.refuse_manager, ex, rules=("REFUSE", "PREPROC.once", "TIMEOUT.row", "TIMEOUT.flow"))
+    _run(rep, wrappers.init_preserves_state, ex)
+    _run(rep, wrappers.shortcut_dominance, ex)
+    _run(rep, diag.flags, ex)
+    _run(rep, diag.facts_sat, ex)
+    _run(rep, preocf.fact_builder_sibling, ex)
 
 
 def C19(rep, prog, tier):
@@ -544,8 +572,8 @@ def C19(rep, prog, tier):
                        "REV.relation, C.empty-minimum, CHECK.three-way, MODEL.extract, REV.entry. Existence and Pareto minimality of "
                        "the returned parameters are not decided")
     ex = Explorer(prog, rep)
-    crev.check_all(rep, ex, tier)
-    cinf.minima_encoding(rep, ex)
+    _run(rep, crev.check_all, ex, tier)
+    _run(rep, cinf.minima_encoding, ex)
 
 
 CHECKS = {"C19": C19, "C01": C01, "C02": C02, "C03": C03, "C04": C04, "C05": C05, "C06": C06, "C07": C07, "C09": C09, "C10": C10, "C11": C11, "C12": C12, "C13": C13, "C14": C14, "C16": C16, "C17": C17, "C18": C18, "C20": C20, "C15": C15}
